@@ -39,6 +39,8 @@ def closed(name, N, params):
         return np.sinc(2 * cen / N)
     if name == "poisson":
         return np.exp(-params.get("alpha", 2) * np.abs(cen) / (N / 2.0))
+    if name == "poisson_hanning":
+        return np.hanning(N) * np.exp(-params.get("alpha", 2) * np.abs(cen) / (N / 2.0))
     if name == "cauchy":
         return 1.0 / (1 + (params.get("alpha", 3) * cen / (N / 2.0)) ** 2)
     return None
@@ -59,6 +61,8 @@ def window(inp):
     if "m" in inp and str(inp["m"]).isdigit():
         Ns.append(2 * int(inp["m"]) + 1)
     Ns += [1, 2, 3, 4, 5, 8, 9, 16, 17, 33, 64]
+    if not params and name in ("poisson_hanning", "poisson", "gaussian", "cauchy", "blackman"):
+        params = {"alpha": 0.7}
     for N in Ns:
         if N > 4096:
             continue
